@@ -380,16 +380,26 @@ pub proof fn lemma_rt_transition(t: Transition, tail: Seq<u8>)
     let r2 = enc_uint(t.source as u64) + r3;
     let r1 = enc_uint(t.doc_id as u64) + r2;
     assert(enc_transition(t) + tail == enc_uint(t.id as u64) + r1);
+    let ev = strs_v(t.events@);
+    let cv = if data_is_empty(t.cond) { data_null() } else { t.cond };
     lemma_rt_d_id(t.id, r1);
+    assert(d_transition(enc_transition(t) + tail) == d_tr1(t.id, r1));
     lemma_rt_d_id(t.doc_id, r2);
+    assert(d_tr1(t.id, r1) == d_tr2(t.id, t.doc_id, r2));
     lemma_rt_d_id(t.source, r3);
+    assert(d_tr2(t.id, t.doc_id, r2) == d_tr3(t.id, t.doc_id, t.source, r3));
     lemma_rt_id_list(t.target@, r4);
+    assert(d_tr3(t.id, t.doc_id, t.source, r3) == d_tr4(t.id, t.doc_id, t.source, t.target@, r4));
     lemma_rt_str_list(t.events@, r5);
+    assert(d_tr4(t.id, t.doc_id, t.source, t.target@, r4) == d_tr5(t.id, t.doc_id, t.source, t.target@, ev, r5));
     lemma_rt_d_uint(fl as u64, r6);
+    assert(d_tr5(t.id, t.doc_id, t.source, t.target@, ev, r5) == d_tr6(t.id, t.doc_id, t.source, t.target@, ev, fl, r6));
     if !data_is_empty(t.cond) {
         trusted_data_codec::axiom_rt_data(t.cond, r7);
     }
+    assert(d_tr6(t.id, t.doc_id, t.source, t.target@, ev, fl, r6) == d_tr7(t.id, t.doc_id, t.source, t.target@, ev, fl, cv, r7));
     if t.content != 0 {
         lemma_rt_d_id(t.content, tail);
     }
+    assert(d_tr7(t.id, t.doc_id, t.source, t.target@, ev, fl, cv, r7) == Dec::Ok(trv_persisted(t), tail));
 }
